@@ -737,6 +737,31 @@ Section Composed.
     - simpl. rewrite He. simpl. repeat split; auto; try lia; try discriminate.
   Qed.
 
+  (* overlapping submissions keep the earliest start; a re-fire after the stored end starts afresh *)
+  Lemma reachable_start_rule (now : Z) (s : store) b1 p b2 :
+    reachable E now s -> valid_p vn vv now rt p = true ->
+    (forall q, In q b2 -> valid_p vn vv now rt q = true -> a_labels (prep now rt q) <> a_labels (prep now rt p)) ->
+    exists cur r,
+      fst (post vn vv now rt s (b1 ++ p :: b2)) !! a_labels (prep now rt p) = Some r /\
+      r = put_opt now cur (prep now rt p) /\
+      (cur = None -> s !! a_labels (prep now rt p) = None /\ r = prep now rt p) /\
+      a_starts r <= a_starts (prep now rt p) /\
+      (forall old, cur = Some old ->
+         (a_starts (prep now rt p) < a_ends old -> a_starts r = Z.min (a_starts old) (a_starts (prep now rt p))) /\
+         (a_ends old <= a_starts (prep now rt p) -> r = prep now rt p)).
+  Proof.
+    intros R V H. destruct (reachable_post_last now s b1 p b2 R V H) as (cur & C1 & C2 & C3).
+    exists cur, (put_opt now cur (prep now rt p)). split; [exact C3|]. split; [reflexivity|].
+    destruct (reachable_inv E now s Hrt R) as [Hn I].
+    destruct (prep_inv vn vv now rt p Hn Hrt V) as [(_ & _ & _ & P4 & _) _].
+    split; [|split].
+    - intros ->. split; [auto|reflexivity].
+    - apply put_opt_start_le.
+    - intros old ->. destruct (C1 old eq_refl) as (_ & _ & _ & O4 & _). split.
+      + apply put_opt_earliest_start.
+      + intros Hd. apply put_opt_disjoint_after; auto.
+  Qed.
+
   (* an explicit end that is not in the future resolves the alert immediately: it is stored resolved, a later GET
      does not list it, and any later gc run deletes it (unless it is re-submitted first) *)
   Lemma reachable_past_end_resolves (now : Z) (s : store) b1 p b2 :
